@@ -542,10 +542,7 @@ func callbackArgumentOrder(c *core.Ctx) {
 
 func takesCallbackSlice(cc *ssa.CallCommon) bool {
 	for _, a := range cc.Args {
-		if _, ok := core.FieldLoad(a, tChar, "connValueUpdateFuncs"); ok {
-			return true
-		}
-		if _, ok := core.FieldLoad(a, tChar, "valueChangeFuncs"); ok {
+		if isCallbackSlice(a, "connValueUpdateFuncs") || isCallbackSlice(a, "valueChangeFuncs") {
 			return true
 		}
 	}
@@ -793,6 +790,7 @@ func accessoryServicesAdded(c *core.Ctx) {
 			base ssa.Value
 			path string
 			at   ssa.Instruction
+			val  ssa.Value
 		}
 		var mades []made
 		core.Instrs(f, func(i ssa.Instruction) {
@@ -809,18 +807,36 @@ func accessoryServicesAdded(c *core.Ctx) {
 				return
 			}
 			b, pth := accessPath(st.Addr)
-			mades = append(mades, made{b, strings.Join(pth, "."), i})
+			mades = append(mades, made{b, strings.Join(pth, "."), i, call})
 		})
 		if len(mades) == 0 {
 			continue
 		}
 		added := map[string]bool{}
+		addedVals := map[ssa.Value]bool{}
 		core.Instrs(f, func(i ssa.Instruction) {
 			g := core.Callee(i)
 			if g == nil || cn(g) != "AddService" {
 				return
 			}
-			_, pth := accessPath(core.Args(i)[0])
+			arg := core.Args(i)[0]
+			// a loop over a list of the services: every element of the list is added
+			for _, el := range elementsOfRangedLiteral(arg) {
+				eb, ep := accessPath(el)
+				for _, sv := range core.Sources(eb) {
+					addedVals[sv] = true
+				}
+				addedVals[eb] = true
+				for k := len(ep); k > 0; k-- {
+					added[strings.Join(ep[:k], ".")] = true
+				}
+			}
+			ab, pth := accessPath(arg)
+			// the service object itself ( bulb := service.NewLightbulb(); base.AddService(bulb.Service) ), possibly through a local
+			for _, sv := range core.Sources(ab) {
+				addedVals[sv] = true
+			}
+			addedVals[ab] = true
 			// acc.Switch.Service -> "Switch"
 			for k := len(pth); k > 0; k-- {
 				added[strings.Join(pth[:k], ".")] = true
@@ -832,13 +848,49 @@ func accessoryServicesAdded(c *core.Ctx) {
 				c.Note("service-added@"+fname(f)+":"+m.path, posOf(m.at), "not added, on purpose: "+why)
 				continue
 			}
-			c.Check(added[m.path], "service-added@"+fname(f)+":"+m.path, posOf(m.at), "the service made for ."+m.path+" is added to the accessory",
+			c.Check(added[m.path] || addedVals[m.val], "service-added@"+fname(f)+":"+m.path, posOf(m.at), "the service made for ."+m.path+" is added to the accessory",
 				"the constructor makes a service, keeps it in ."+m.path+" and never adds it to the accessory: it is not among the accessory's services — no ids, not published, its characteristics unreachable")
 		}
 	}
 	if n == 0 {
 		c.Undecided("service-added", token.NoPos, "no accessory constructor makes a service")
 	}
+}
+
+// elementsOfRangedLiteral: v is the loop variable of  for _, x := range []T{a, b, c}  (an element loaded from a slice over a local
+// array that was filled element by element): a, b, c.
+func elementsOfRangedLiteral(v ssa.Value) []ssa.Value {
+	var out []ssa.Value
+	for _, s := range core.Sources(v) {
+		u, ok := s.(*ssa.UnOp)
+		if !ok || u.Op != token.MUL {
+			continue
+		}
+		ia, ok := u.X.(*ssa.IndexAddr)
+		if !ok {
+			continue
+		}
+		for _, xs := range []ssa.Value{core.StripConv(ia.X)} {
+			sl, ok := xs.(*ssa.Slice)
+			if !ok {
+				continue
+			}
+			al, ok := sl.X.(*ssa.Alloc)
+			if !ok {
+				continue
+			}
+			for _, r := range *al.Referrers() {
+				if ea, ok := r.(*ssa.IndexAddr); ok {
+					for _, rr := range *ea.Referrers() {
+						if st, ok := rr.(*ssa.Store); ok && st.Addr == ssa.Value(ea) {
+							out = append(out, st.Val)
+						}
+					}
+				}
+			}
+		}
+	}
+	return out
 }
 
 // serviceNotAddedOnPurpose: one line of reason per exception.
